@@ -87,6 +87,23 @@ theorem eta_pos_iff_above (q2 m2 z : ℝ) (hm : 0 < m2) (hz : 0 < z) :
   rw [(xi_eta q2 m2 z hm.ne' hz.ne').2, guard_is_pair_threshold, not_le, sub_pos, lt_div_iff₀ (by positivity)]
   constructor <;> intro h <;> linarith
 
+/-- the guard's second clause `or η(z) ≤ 0` (added by the repair of F26 so that the double
+rounding of `η(z)` cannot put a point on the open side of the guard with `η ≤ 0`) changes nothing
+over exact numbers: `η(z) ≤ 0` holds exactly when the first clause does -/
+theorem eta_clause_is_redundant (q2 m2 z : ℝ) (hm : 0 < m2) (hz : 0 < z) :
+    Yadism.Gen.ncEta.evalR (renv q2 m2 0 z) ≤ 0 ↔ below q2 m2 z := by
+  rw [← not_lt, eta_pos_iff_above q2 m2 z hm hz, not_not]
+
+/-- … so the guard as written (either clause) is the pair threshold -/
+theorem guard_with_eta_clause (q2 m2 z : ℝ) (hm : 0 < m2) (hz : 0 < z) :
+    (below q2 m2 z ∨ (Yadism.Gen.pairGuardEtaClause = true ∧ Yadism.Gen.ncEta.evalR (renv q2 m2 0 z) ≤ 0))
+      ↔ below q2 m2 z := by
+  constructor
+  · rintro (h | ⟨_, h⟩)
+    · exact h
+    · exact (eta_clause_is_redundant q2 m2 z hm hz).mp h
+  · exact Or.inl
+
 /-! ## Neutral current: every integrand and every order is guarded -/
 
 /-- every regular part of every heavy NC class and order starts with
